@@ -236,3 +236,59 @@ def h_generated_script(side, kind):
         exp = "require [" + ", ".join(['"' + r + '"' for r in req]) + "];\n\n"
     exp = exp + "# Filter: rule\nif " + mt + " (" + test + ") {\n" + body + "}\n"
     prove(text == exp, "G.generated-script-is-the-RFC-form-with-exactly-the-needed-requires")
+
+
+# ---------------------------------------------------------------- C11.L: the loader (from_parser_result)
+
+class ParsedStub:
+    """what from_parser_result needs of a Parser: the list of top-level commands with their hash comments"""
+
+    def __init__(self, result):
+        self.result = result
+
+
+def h_loader(shape):
+    """FiltersSet.from_parser_result on a parse result whose top-level commands carry the comments tosieve writes
+    (marker + name, marker + description) with SYMBOLIC names and descriptions -- which may themselves contain the marker
+    texts: names, descriptions, order and enabled status are recovered exactly; a command without a name comment gets
+    `Unnamed rule N`.  shape: per command one of 'named' | 'named+desc' | 'anonymous' | 'disabled' | 'other-comments'"""
+    src = factory.FiltersSet("source")
+    cmds = []
+    names = []
+    descs = []
+    enabled = []
+    for i in range(len(shape)):
+        src.addfilter("f%d" % i, [("Subject", ":is", "x")], [("fileinto", "F%d" % i)])
+        if shape[i] == "disabled":
+            src.disablefilter("f%d" % i)
+        cmd = src.filters[i]["content"]
+        nm = sym_str("name%d" % i)
+        ds = sym_str("description%d" % i)
+        if shape[i] == "named" or shape[i] == "disabled":
+            cmd.hash_comments = ["# Filter: " + nm]
+            names.append(nm)
+            descs.append("")
+        elif shape[i] == "named+desc":
+            cmd.hash_comments = ["# Filter: " + nm, "# Description: " + ds]
+            names.append(nm)
+            descs.append(ds)
+        elif shape[i] == "other-comments":
+            cmd.hash_comments = ["# something else", "# Filter: " + nm, "#Description: not a marker"]
+            names.append(nm)
+            descs.append("")
+        else:
+            cmd.hash_comments = []
+            names.append("Unnamed rule %d" % (i + 1))
+            descs.append("")
+        enabled.append(shape[i] != "disabled")
+        cmds.append(cmd)
+    fs = factory.FiltersSet("loaded")
+    fs.from_parser_result(ParsedStub(cmds))
+    prove(len(fs.filters) == len(shape), "L.one-filter-per-top-level-command")
+    if len(fs.filters) != len(shape):
+        return
+    for i in range(len(shape)):
+        f = fs.filters[i]
+        prove(f["name"] == names[i], "L.name-recovered-exactly-even-when-it-contains-marker-text")
+        prove(f["description"] == descs[i], "L.description-recovered-exactly")
+        prove(f["enabled"] == enabled[i] and f["content"] is cmds[i], "L.order-content-and-enabled-status-recovered")
